@@ -96,6 +96,20 @@ pub fn tokenize(s: &str) -> Vec<Tok> {
             while i < b.len() && b[i].is_ascii_digit() {
                 i += 1;
             }
+            // X.680 12.9 "realnumber": an optional fraction (not the first dot of a range) and an optional exponent belong
+            // to the same lexical item
+            if i + 1 < b.len() && b[i] == b'.' && b[i + 1].is_ascii_digit() {
+                i += 1;
+                while i < b.len() && b[i].is_ascii_digit() {
+                    i += 1;
+                }
+            }
+            if i + 1 < b.len() && (b[i] == b'e' || b[i] == b'E') && (b[i + 1].is_ascii_digit() || (b[i + 1] == b'-' && i + 2 < b.len() && b[i + 2].is_ascii_digit())) {
+                i += 2;
+                while i < b.len() && b[i].is_ascii_digit() {
+                    i += 1;
+                }
+            }
             class = "number";
         } else if s[i..].starts_with("::=") {
             i += 3;
